@@ -3,5 +3,4 @@ CONSTANTS
   CIDS = {"c1", "c2", "c3"}
   VALS = {"A", "B", "C"}
 CONSTRAINT Mark
-INVARIANT TraceInv
 POSTCONDITION Finish
